@@ -27,9 +27,9 @@ EXTENDS SchedulingGuards, Json
 CONSTANTS
     NPods,        \* pods per batch
     PodArchs,     \* archetype ids the batch is drawn from (subset of 1..12)
-    Catalogs,     \* catalog ids (subset of 1..4)
+    Catalogs,     \* catalog ids (subset of 1..6)
     PoolSets,     \* pool-set ids (subset of 1..5)
-    Existings,    \* existing-state ids (subset of 0..3)
+    Existings,    \* existing-state ids (subset of 0..4)
     Daemons,      \* daemonset ids (subset of 0..3)
     W_Avail,      \* TRUE: an offering must be available             (FALSE = mutation)
     W_Overhead,   \* TRUE: per-type daemon overhead is added to the requests
@@ -44,20 +44,24 @@ vars == <<cfg, eff, claims, onNode, state>>
 ----------------------------------------------------------------------------
 (* scenario space *)
 U == [zone |-> <<"a", "b", "c", "~">>, ct |-> <<"spot", "od", "~">>, it |-> <<"T1", "T2", "~">>,
-      team |-> <<"x", "y", "~">>, pool |-> <<"P1", "P2", "~">>, host |-> <<"n1", "n2", "~">>]
+      team |-> <<"x", "y", "~">>, pool |-> <<"P1", "P2", "~">>, host |-> <<"n1", "n2", "n3", "~">>]
 UNum == [k \in DOMAIN U |-> [i \in DOMAIN U[k] |-> NoInt]]
 Custom == {"team"}
 
-Off(z, c, av, cov) == [zone |-> z, ct |-> c, price |-> (IF c = "spot" THEN 60 ELSE 100), available |-> av, rid |-> "", rcap |-> 0,
-                       cpuOv |-> cov, memOv |-> 0]
+Off(z, c, av, cov, oh) == [zone |-> z, ct |-> c, price |-> (IF c = "spot" THEN 60 ELSE 100), available |-> av, rid |-> "", rcap |-> 0,
+                           cpuOv |-> cov, memOv |-> 0, podsOv |-> 0, ohCpu |-> oh, ohMem |-> 0]
 Ty(n, cpu, offs) == [name |-> n, cpu |-> cpu, mem |-> 4096, pods |-> 110, labels |-> <<>>, ovCpu |-> 100, ovMem |-> 0, offerings |-> offs]
-AllOff(unav, cov) == <<Off("a", "spot", <<"a", "spot">> \notin unav, 0), Off("a", "od", <<"a", "od">> \notin unav, 0),
-                       Off("b", "spot", <<"b", "spot">> \notin unav, 0), Off("b", "od", <<"b", "od">> \notin unav, cov)>>
+\* four offerings; b/od optionally carries a capacity override (cov) and / or an overhead override (oh)
+AllOffOv(unav, cov, oh) == <<Off("a", "spot", <<"a", "spot">> \notin unav, 0, 0), Off("a", "od", <<"a", "od">> \notin unav, 0, 0),
+                             Off("b", "spot", <<"b", "spot">> \notin unav, 0, 0), Off("b", "od", <<"b", "od">> \notin unav, cov, oh)>>
+AllOff(unav, cov) == AllOffOv(unav, cov, 0)
 Catalog(i) ==
     CASE i = 1 -> <<Ty("T1", 1000, AllOff({}, 0)), Ty("T2", 2000, AllOff({}, 0))>>
       [] i = 2 -> <<Ty("T1", 1000, AllOff({<<"b", "spot">>, <<"b", "od">>}, 0)), Ty("T2", 2000, AllOff({}, 0))>>
       [] i = 3 -> <<Ty("T1", 1000, AllOff({}, 0)), Ty("T2", 2000, AllOff({<<"a", "od">>, <<"b", "od">>}, 0))>>
       [] i = 4 -> <<Ty("T1", 1000, AllOff({<<"a", "spot">>}, 0)), Ty("T2", 2000, AllOff({<<"a", "od">>}, 1000))>>   \* T2: a/od unavailable, b/od with capacity override 1000
+      [] i = 5 -> <<Ty("T1", 1000, AllOff({<<"a", "spot">>}, 0)), Ty("T2", 2000, AllOffOv({<<"a", "od">>}, 0, 1100))>>  \* T2 b/od: OVERHEAD override only (room 900)
+      [] i = 6 -> <<Ty("T1", 1000, AllOff({}, 0)), Ty("T2", 2000, AllOffOv({<<"a", "od">>}, 3000, 2100))>>              \* T2 b/od: capacity AND overhead override (room 900)
 
 NoLimits == [cpu |-> 0, mem |-> 0, nodes |-> -1]
 PR(k, op, vals) == [key |-> k, op |-> op, vals |-> vals, n |-> 0, min |-> 0]
@@ -109,8 +113,11 @@ NodeRec(name, stage, tyn, z, c, alloc, pool) ==
 ExistNodes(i, pool) ==
     LET n1 == NodeRec("n1", "initialized", "T2", "a", "od", Res(1900, 4096, 110), pool)
         n2 == NodeRec("n2", "claimonly", "T1", "b", "spot", Res(900, 4096, 110), pool)
-    IN CASE i = 0 -> <<>> [] i = 1 -> <<n1>> [] i = 2 -> <<n2>> [] i = 3 -> <<n1, n2>>
-BoundOn(i) == IF i \in {1, 3} THEN <<[P0("b1") EXCEPT !.node = "n1", !.owner = "rs", !.cpu = 900, !.ports = <<Port80>>, !.tol = <<TolAll>>]>> ELSE <<>>
+        \* n3 = statically joined (unmanaged) node WITHOUT zone / pool labels: a missing label satisfies only NotIn / DoesNotExist
+        n3 == [name |-> "n3", stage |-> "unmanaged", pool |-> "", labels |-> [ct |-> "od", it |-> "T2"], taints |-> <<>>, startup |-> <<>>,
+               ephemeral |-> FALSE, alloc |-> Res(1900, 4096, 110), cap |-> Res(1900, 4096, 110), marked |-> FALSE, deleting |-> FALSE, csi |-> <<>>]
+    IN CASE i = 0 -> <<>> [] i = 1 -> <<n1>> [] i = 2 -> <<n2>> [] i = 3 -> <<n1, n2>> [] i = 4 -> <<n1, n3>>
+BoundOn(i) == IF i \in {1, 3, 4} THEN <<[P0("b1") EXCEPT !.node = "n1", !.owner = "rs", !.cpu = 900, !.ports = <<Port80>>, !.tol = <<TolAll>>]>> ELSE <<>>
 
 DS0(sel, ports) == [name |-> "ds0", ns |-> "kube-system", cpu |-> 200, mem |-> 64, sel |-> sel, terms |-> <<>>, tol |-> <<TolAll>>, ports |-> ports]
 DaemonSet(i) == CASE i = 0 -> <<>> [] i = 1 -> <<DS0(<<>>, <<>>)>> [] i = 2 -> <<DS0([zone |-> "a"], <<>>)>> [] i = 3 -> <<DS0(<<>>, <<Port80>>)>>
@@ -180,7 +187,7 @@ DaemonsFor(pool, it) ==
     {d \in Range(cfg.ds) :
         /\ TaintsTolerated(d.tol, pool.taints)
         /\ LET dr == ReqsOfExprs(SelExprs(d.sel)) IN AllNonEmpty(MeetMap(TemplateReqs(pool), dr)) /\ ItCompat(it, dr)}
-AllocFor(it, o) == IF W_Override THEN OfferingAlloc(it, o) ELSE OfferingAlloc(it, [o EXCEPT !.cpuOv = 0, !.memOv = 0])
+AllocFor(it, o) == IF W_Override THEN OfferingAlloc(it, o) ELSE OfferingAlloc(it, [o EXCEPT !.cpuOv = 0, !.memOv = 0, !.podsOv = 0, !.ohCpu = 0, !.ohMem = 0])
 FitsType(pool, it, reqs, P) ==
     \E i \in DOMAIN it.offerings :
         LET o == it.offerings[i] IN
